@@ -2333,6 +2333,11 @@ class Exec:
             if name == 'abs':
                 a = self.as_int(A[0])
                 return [(st, VInt(z3.If(a >= 0, a, -a)))]
+            if name == 'enumerate':
+                start = A[1].conc() if len(A) > 1 else (kws['start'].conc() if 'start' in kws else 0)
+                if start is None:
+                    raise ToolLimit('enumerate with a symbolic start')
+                return [(st, VTuple([VTuple([VInt(start + i), x]) for i, x in enumerate(self.iter_items(A[0], st))]))]
             if name == 'tuple':
                 return [(st, VTuple(self.iter_items(A[0], st)))]
             if name in ('set', 'frozenset'):
